@@ -271,6 +271,7 @@ type pool struct {
 	cut      bool // deadline hit: queue dropped
 	a        *agg
 	expandIf func(depth int) bool
+	onResult func(r *explore.Result)
 	stopErr  error
 }
 
@@ -386,9 +387,12 @@ func (p *pool) run() {
 						return
 					}
 					p.a.add(t, r)
+					if p.onResult != nil {
+						p.onResult(r)
+					}
 					for _, c := range r.Children {
 						d := t.Depth - 1
-						p.push(&explore.Task{Scen: t.Scen, Params: t.Params, Prefix: c.Prefix, Hash: c.Hash, Depth: d, Expand: p.expandIf(d), Known: t.Known})
+						p.push(&explore.Task{Scen: t.Scen, Params: t.Params, Prefix: c.Prefix, Hash: c.Hash, Depth: d, Expand: p.expandIf(d), Known: t.Known, WantObs: t.WantObs})
 					}
 					if r.Recycle {
 						w.stop()
